@@ -33,6 +33,12 @@ Only rewrites whose result is the same program are made, each under a stated con
   of one class gets its first parameter renamed to ``self``: it is a method of that class
   written outside of it, and reads the same as the method would.
 
+* module level ``f = operator.attrgetter('a.b')`` / ``itemgetter(i)`` /
+  ``methodcaller('m', x, k=v)`` (bound once, the factory named through this module's
+  imports of :py:mod:`operator`): a call ``f(obj)`` is ``obj.a.b`` / ``obj[i]`` /
+  ``obj.m(x, k=v)``; ``attrgetter('a', 'b')(obj)`` is ``(obj.a, obj.b)``; ``map(f, xs)`` is
+  normalised first.
+
 Assignment expressions elsewhere (second operand of ``and``/``or``, comprehensions,
 ``while`` tests, ``assert``) stay as they are and are interpreted by the path engine.
 """
@@ -547,6 +553,107 @@ def _selfify(tree) -> int:
     return count
 
 
+_GETTERS = ('attrgetter', 'itemgetter', 'methodcaller')
+
+
+def _operator_getters(tree) -> dict:
+    """module level name -> (kind, call node) for names bound exactly once, at module level,
+    to operator.attrgetter/itemgetter/methodcaller with constant names"""
+    if not isinstance(tree, ast.Module):
+        return {}
+    factories, modules = {}, set()
+    for node in ast.walk(tree):
+        if isinstance(node, ast.ImportFrom) and node.module == 'operator' and not node.level:
+            for alias in node.names:
+                if alias.name in _GETTERS:
+                    factories[alias.asname or alias.name] = alias.name
+        elif isinstance(node, ast.Import):
+            for alias in node.names:
+                if alias.name == 'operator':
+                    modules.add(alias.asname or 'operator')
+    stores = {}
+    for node in ast.walk(tree):
+        if isinstance(node, ast.Name) and isinstance(node.ctx, (ast.Store, ast.Del)):
+            stores[node.id] = stores.get(node.id, 0) + 1
+        elif isinstance(node, ast.arg):
+            stores[node.arg] = stores.get(node.arg, 0) + 2
+        elif isinstance(node, (ast.FunctionDef, ast.AsyncFunctionDef, ast.ClassDef)):
+            stores[node.name] = stores.get(node.name, 0) + 2
+    found = {}
+    for stmt in tree.body:
+        if not (isinstance(stmt, ast.Assign) and len(stmt.targets) == 1
+                and isinstance(stmt.targets[0], ast.Name)
+                and isinstance(stmt.value, ast.Call)):
+            continue
+        name, call = stmt.targets[0].id, stmt.value
+        kind = None
+        if isinstance(call.func, ast.Name):
+            kind = factories.get(call.func.id)
+        elif isinstance(call.func, ast.Attribute) and isinstance(call.func.value, ast.Name) \
+                and call.func.value.id in modules and call.func.attr in _GETTERS:
+            kind = call.func.attr
+        if kind is None or stores.get(name) != 1 or not call.args or any(
+                isinstance(a, ast.Starred) for a in call.args):
+            continue
+        if kind == 'attrgetter' and not (not call.keywords and all(
+                isinstance(a, ast.Constant) and isinstance(a.value, str) and all(
+                    part.isidentifier() for part in a.value.split('.')) for a in call.args)):
+            continue
+        if kind == 'itemgetter' and (call.keywords or len(call.args) != 1
+                                     or not isinstance(call.args[0], ast.Constant)):
+            continue
+        if kind == 'methodcaller' and not (
+                isinstance(call.args[0], ast.Constant) and isinstance(call.args[0].value, str)
+                and call.args[0].value.isidentifier() and all(
+                    isinstance(a, (ast.Constant, ast.Name)) for a in call.args[1:]) and all(
+                    kw.arg is not None and isinstance(kw.value, (ast.Constant, ast.Name))
+                    for kw in call.keywords)):
+            continue
+        found[name] = (kind, call)
+    return found
+
+
+class _ApplyGetters(ast.NodeTransformer):
+    def __init__(self, getters):
+        self.getters, self.count = getters, 0
+
+    def visit_Call(self, node):
+        node = self.generic_visit(node)
+        if not (isinstance(node.func, ast.Name) and node.func.id in self.getters
+                and len(node.args) == 1 and not node.keywords
+                and not isinstance(node.args[0], ast.Starred)):
+            return node
+        import copy
+        kind, made = self.getters[node.func.id]
+        subject = node.args[0]
+
+        def chain(dotted, base):
+            for part in dotted.split('.'):
+                base = ast.Attribute(value=base, attr=part, ctx=ast.Load())
+            return base
+        if kind == 'attrgetter':
+            if len(made.args) == 1:
+                new = chain(made.args[0].value, subject)
+            else:
+                if not isinstance(subject, (ast.Name, ast.Attribute)):
+                    return node  # evaluated once by the getter, several times if spelled out
+                new = ast.Tuple(elts=[chain(a.value, copy.deepcopy(subject))
+                                      for a in made.args], ctx=ast.Load())
+        elif kind == 'itemgetter':
+            new = ast.Subscript(value=subject, slice=copy.deepcopy(made.args[0]),
+                                ctx=ast.Load())
+        else:
+            new = ast.Call(func=ast.Attribute(value=subject, attr=made.args[0].value,
+                                              ctx=ast.Load()),
+                           args=[copy.deepcopy(a) for a in made.args[1:]],
+                           keywords=[copy.deepcopy(kw) for kw in made.keywords])
+        for fresh in ast.walk(new):
+            if isinstance(fresh, ast.expr) and not hasattr(fresh, 'lineno'):
+                ast.copy_location(fresh, node)
+        self.count += 1
+        return new
+
+
 def desugar(tree):
     """normalise ``tree`` in place; returns the number of rewrites"""
     count = 0
@@ -554,6 +661,11 @@ def desugar(tree):
     mapper = _MapToGenerator(functions, modules, shadowed, filterfalse)
     mapper.visit(tree)
     count += mapper.count
+    getters = _operator_getters(tree)
+    if getters:
+        applier = _ApplyGetters(getters)
+        applier.visit(tree)
+        count += applier.count
     count += _fuse_generator_loops(tree)
     count += _fuse_iterator_loops(tree)
     count += _close_over_arguments(tree)
